@@ -1,4 +1,5 @@
 import Sentinel.Model.LeapArray
+import Sentinel.Model.Bucket
 /-!
 # M-REUSE — the controller-reuse calculus of the rule managers (core Lean only, executable)
 
@@ -250,19 +251,34 @@ def FlowRule.valid (r : FlowRule) : Bool :=
 /-- the write-back of `NewWarmUpTrafficShapingCalculator` -/
 def FlowRule.norm (r : FlowRule) : FlowRule := if r.tcs = 1 && r.cf ≤ 1 then { r with cf := 3 } else r
 
+/-- `standaloneStatistic`: what a controller reads (and, for an own array, what `StandaloneStatSlot` writes) -/
+inductive FStat where
+  | nop
+  | node (sc iv : Nat)                       -- a view (`GenerateReadStat` / `DefaultMetric`) of the resource node
+  | own (arr : LA.Arr Nat) (sc iv : Nat)     -- an independent `BucketLeapArray` of pass counts
+deriving Repr
+
 structure FlowSt where
   lastPassed : Nat := 0      -- ThrottlingChecker.lastPassedTime (ns)
   tokens : Nat := 0          -- WarmUp storedTokens
   lastFilled : Nat := 0      -- WarmUp lastFilledTime
-  statId : Nat := 0          -- which standalone statistic it reads (0 = the resource node)
+  stat : FStat := .nop
 deriving Repr
+
+/-- `generateStatFor` under the default configuration (resource node 20 × 500 ms, default metric 2 × 500 ms) -/
+def flowStatFor (r : FlowRule) (now : Nat) : FStat :=
+  if !r.needStat then .nop else
+  let iv := r.statIv
+  if iv = 0 || iv = 1000 then .node 2 1000 else
+  let sc := if iv > 10000 then 1 else if iv < 500 then 1 else if iv % 500 = 0 then iv / 500 else 1
+  if LA.validView sc iv 20 10000 = 0 then .node sc iv else .own (LA.mk sc (iv / sc) now) sc iv
 
 def flowCalc : Calc FlowRule FlowSt where
   eq := FlowRule.eq
   sr := FlowRule.sr
   norm := FlowRule.norm
-  fresh := fun _ _ => {}
-  reuse := fun _ old _ => { statId := old.statId }
+  fresh := fun r now => { stat := flowStatFor r now }
+  reuse := fun _ old _ => { stat := old.stat }
 
 /-- `ceil(batch / threshold * statIntervalNs)` in binary64, exactly as `ThrottlingChecker.DoCheck` computes it -/
 def throttleInterval (thr statIvMs : Nat) : Nat :=
@@ -287,21 +303,70 @@ def throttleCheck (nowMs : Nat) (c : Ctl FlowRule FlowSt) : Verdict × Ctl FlowR
     if est > c.rule.maxQ * 1000000 then (.block, c)
     else (.wait est, { c with st := { c.st with lastPassed := last + ivl } })
 
-/-- `PerformChecking` of one controller.  `passSum` is what its read statistic returns for the pass count
-    (only consulted by the Reject checker). -/
-def flowCheckOne (nowMs : Nat) (passSum : Nat) (c : Ctl FlowRule FlowSt) : Verdict × Ctl FlowRule FlowSt :=
-  if c.rule.cb = 1 then throttleCheck nowMs c
-  else if passSum + 1 > c.rule.thr then (.block, c) else (.pass, c)
+/-- `WarmUpTrafficShapingCalculator.CalculateAllowedTokens` (binary64 as in the code): the allowed QPS and the
+    controller with its tokens synchronised.  `prevQps` is `GetPreviousQPS(pass)` of its read statistic. -/
+def warmUpAllowed (nowMs : Nat) (prevQps : Float) (c : Ctl FlowRule FlowSt) : Float × Ctl FlowRule FlowSt :=
+  let thr := c.rule.thr.toFloat
+  let period := c.rule.period.toFloat
+  let cf := c.rule.cf
+  let warning : Nat := (period * thr / (cf - 1).toFloat).toUInt64.toNat
+  let maxTok : Nat := warning + (2.0 * period * thr / (1 + cf).toFloat).toUInt64.toNat
+  let slope := (cf - 1).toFloat / thr / (maxTok - warning).toFloat
+  let cur := nowMs - nowMs % 1000
+  let st :=
+    if cur ≤ c.st.lastFilled then c.st else
+    let old := c.st.tokens
+    let grown : Nat := (old.toFloat + (cur.toFloat - c.st.lastFilled.toFloat) * thr / 1000.0).toUInt64.toNat
+    let nv :=
+      if old < warning then grown
+      else if old > warning then (if prevQps < (c.rule.thr / cf).toFloat then grown else old)
+      else old
+    let nv := min nv maxTok
+    { c.st with tokens := nv - prevQps.toUInt64.toNat, lastFilled := cur }
+  let rest := st.tokens
+  let allowed :=
+    if rest ≥ warning then
+      let x := 1.0 / ((rest - warning).toFloat * slope + 1.0 / thr)
+      Float.ofBits (x.toBits + 1)          -- math.Nextafter(x, MaxFloat64) for positive finite x
+    else thr
+  (allowed, { c with st := st })
+
+/-- `PerformChecking` of one controller.  `sum` / `prevQps` are what its read statistic returns for the pass count of
+    the current window and the QPS of the previous one. -/
+def flowCheckOne (nowMs : Nat) (sum : Nat) (prevQps : Float) (c : Ctl FlowRule FlowSt) : Verdict × Ctl FlowRule FlowSt :=
+  if c.rule.tcs = 1 then
+    let (allowed, c') := warmUpAllowed nowMs prevQps c
+    if sum.toFloat + 1.0 > allowed then (.block, c') else (.pass, c')
+  else if c.rule.cb = 1 then throttleCheck nowMs c
+  else if sum + 1 > c.rule.thr then (.block, c) else (.pass, c)
 
 /-- `flow.Slot.Check`: controllers in order; the first refusal ends the scan, waits add up.
     Result: blocking rule `Id` (if any), total wait (ns), updated controllers. -/
-def flowScan (nowMs : Nat) (passSum : Ctl FlowRule FlowSt → Nat) :
+def flowScan (nowMs : Nat) (rd : Ctl FlowRule FlowSt → Nat × Float) :
     List (Ctl FlowRule FlowSt) → Option Nat × Nat × List (Ctl FlowRule FlowSt)
   | [] => (none, 0, [])
   | c :: cs =>
-    match flowCheckOne nowMs (passSum c) c with
+    match flowCheckOne nowMs (rd c).1 (rd c).2 c with
     | (.block, c') => (some c.rule.id, 0, c' :: cs)
-    | (.pass, c') => let (b, w, cs') := flowScan nowMs passSum cs; (b, w, c' :: cs')
-    | (.wait ns, c') => let (b, w, cs') := flowScan nowMs passSum cs; (b, w + ns, c' :: cs')
+    | (.pass, c') => let (b, w, cs') := flowScan nowMs rd cs; (b, w, c' :: cs')
+    | (.wait ns, c') => let (b, w, cs') := flowScan nowMs rd cs; (b, w + ns, c' :: cs')
+
+/-- what a controller's read statistic returns at `now`: `(GetSum(pass), GetPreviousQPS(pass))`; `node` is the pass
+    array of the resource node -/
+def flowRead (node : LA.Arr Nat) (now : Nat) (c : Ctl FlowRule FlowSt) : Nat × Float :=
+  let rd (a : LA.Arr Nat) (sc iv : Nat) : Nat × Float :=
+    let lv := iv / sc
+    let prev := if lv ≤ now then LA.viewSum a iv (now - lv) else 0
+    (LA.viewSum a iv now, prev.toFloat / (iv.toFloat / 1000.0))
+  match c.st.stat with
+  | .nop => (0, 0.0)
+  | .node sc iv => rd node sc iv
+  | .own a sc iv => rd a sc iv
+
+/-- `StandaloneStatSlot.OnEntryPassed`: every controller with an own array counts the pass -/
+def flowRecordPass (now : Nat) (c : Ctl FlowRule FlowSt) : Ctl FlowRule FlowSt :=
+  match c.st.stat with
+  | .own a sc iv => { c with st := { c.st with stat := .own (LA.addAt a now 1).1 sc iv } }
+  | _ => c
 
 end Sentinel.Reuse
